@@ -233,29 +233,27 @@ theorem neighboringCells_square (ix : Index α) (i j u i' j' : Int) :
   · rintro ⟨⟨a, b, c, d⟩, e, f, g, h⟩
     exact ⟨⟨by omega, by omega⟩, by omega, by omega⟩
 
-/-- T4c `neighborhood_complete`: for an index built with `margin ≥ 0` and a positive (or the default) cell size,
-EVERY query point `q` of the closed extent and a ground distance `d ≥ 0`:
-`groundDistanceToUnits(d)` and `neighborhood(q, unit = groundDistanceToUnits(d))` do not raise and the latter
-returns every feature `k` that has a point `P` (on one of its segments) within Euclidean distance `d` of `q`. -/
-theorem neighborhood_complete {fl : α → Int} (hf : IsFloor fl) (feats : List (List (α × α))) (res : Option (α × α))
-    (margin : α) (ix : Index α) (hm : 0 ≤ margin) (hres : ∀ r, res = some r → 0 < r.1 ∧ 0 < r.2)
-    (hb : build fl feats res margin = .ok ix)
-    (k : Nat) (t : List (α × α)) (hk : feats[k]? = some t) (A B : α × α) (hAB : (A, B) ∈ Consec t)
-    (s : α) (hs0 : 0 ≤ s) (hs1 : s ≤ 1) (q : α × α) (hq : getCell ix q ≠ none) (d : α) (hd : 0 ≤ d)
-    (hdist : (q.1 - (lerp A B s).1) ^ 2 + (q.2 - (lerp A B s).2) ^ 2 ≤ d ^ 2) :
+/-- T4c' `neighborhood_finds_registered`: on ANY index on which nothing raises (`Good`: well formed, at least one
+column and row, positive cell sides — a built index, also after later `addFeature` / `Network.addEdge` calls), for
+every query point `q` of the closed extent and ground distance `d ≥ 0`: `groundDistanceToUnits(d)` and
+`neighborhood(q, unit = groundDistanceToUnits(d))` do not raise and the latter returns every feature `k` listed in
+the cell of a point `P` of the extent within Euclidean distance `d` of `q`. The answer is a function of the grid as
+it is now: nothing remembered from earlier queries enters it. -/
+theorem neighborhood_finds_registered {fl : α → Int} (hf : IsFloor fl) (ix : Index α) (hg : Good ix)
+    (k : Nat) (P cP : α × α) (hP : getCell ix P = some cP) (hHolds : Holds ix.grid (cellOf fl ix cP).1 (cellOf fl ix cP).2 k)
+    (q : α × α) (hq : getCell ix q ≠ none) (d : α) (hd : 0 ≤ d)
+    (hdist : (q.1 - P.1) ^ 2 + (q.2 - P.2) ^ 2 ≤ d ^ 2) :
     ∃ u l, groundDistanceToUnits fl ix d = .ok u ∧ neighborhoodPoint fl ix q u = .ok (some l) ∧ k ∈ l := by
-  have hg := build_good hf feats res margin ix hm hres hb
   obtain ⟨hw, hcs, hls, hdX, hdY⟩ := hg
-  obtain ⟨cP, hP, hHolds⟩ := build_registers hf feats res margin ix hm hres hb k t hk A B hAB s hs0 hs1
   obtain ⟨cq, hcq⟩ := Option.ne_none_iff_exists'.mp hq
   -- coordinate differences are bounded by the Euclidean distance
-  have hx : -d ≤ q.1 - (lerp A B s).1 ∧ q.1 - (lerp A B s).1 ≤ d := by
-    have h2 : (q.1 - (lerp A B s).1) ^ 2 ≤ d ^ 2 := by nlinarith [sq_nonneg (q.2 - (lerp A B s).2)]
+  have hx : -d ≤ q.1 - P.1 ∧ q.1 - P.1 ≤ d := by
+    have h2 : (q.1 - P.1) ^ 2 ≤ d ^ 2 := by nlinarith [sq_nonneg (q.2 - P.2)]
     exact abs_le.mp (abs_le_of_sq_le_sq h2 hd)
-  have hy : -d ≤ q.2 - (lerp A B s).2 ∧ q.2 - (lerp A B s).2 ≤ d := by
-    have h2 : (q.2 - (lerp A B s).2) ^ 2 ≤ d ^ 2 := by nlinarith [sq_nonneg (q.1 - (lerp A B s).1)]
+  have hy : -d ≤ q.2 - P.2 ∧ q.2 - P.2 ≤ d := by
+    have h2 : (q.2 - P.2) ^ 2 ≤ d ^ 2 := by nlinarith [sq_nonneg (q.1 - P.1)]
     exact abs_le.mp (abs_le_of_sq_le_sq h2 hd)
-  obtain ⟨u, hgu, hueq, _, _, ⟨u1, u2⟩, u3, u4⟩ := units_sound hf ix hdX hdY (lerp A B s) q cP cq d hP hcq hx hy
+  obtain ⟨u, hgu, hueq, _, _, ⟨u1, u2⟩, u3, u4⟩ := units_sound hf ix hdX hdY P q cP cq d hP hcq hx hy
   have hmn : 0 < min ix.dX ix.dY := lt_min hdX hdY
   have hu1 : 1 ≤ u := by
     rw [hueq]
@@ -281,6 +279,56 @@ theorem neighborhood_complete {fl : α → Int} (hf : IsFloor fl) (feats : List 
   · rw [neighboringCells_square]
     exact ⟨⟨by omega, by omega, hi0, hi1⟩, by omega, by omega, hj0, hj1⟩
   · exact hHolds
+
+/-- T4c `neighborhood_complete`: for an index built with `margin ≥ 0` and a positive (or the default) cell size,
+EVERY query point `q` of the closed extent and a ground distance `d ≥ 0`:
+`groundDistanceToUnits(d)` and `neighborhood(q, unit = groundDistanceToUnits(d))` do not raise and the latter
+returns every feature `k` that has a point `P` (on one of its segments) within Euclidean distance `d` of `q`. -/
+theorem neighborhood_complete {fl : α → Int} (hf : IsFloor fl) (feats : List (List (α × α))) (res : Option (α × α))
+    (margin : α) (ix : Index α) (hm : 0 ≤ margin) (hres : ∀ r, res = some r → 0 < r.1 ∧ 0 < r.2)
+    (hb : build fl feats res margin = .ok ix)
+    (k : Nat) (t : List (α × α)) (hk : feats[k]? = some t) (A B : α × α) (hAB : (A, B) ∈ Consec t)
+    (s : α) (hs0 : 0 ≤ s) (hs1 : s ≤ 1) (q : α × α) (hq : getCell ix q ≠ none) (d : α) (hd : 0 ≤ d)
+    (hdist : (q.1 - (lerp A B s).1) ^ 2 + (q.2 - (lerp A B s).2) ^ 2 ≤ d ^ 2) :
+    ∃ u l, groundDistanceToUnits fl ix d = .ok u ∧ neighborhoodPoint fl ix q u = .ok (some l) ∧ k ∈ l := by
+  obtain ⟨cP, hP, hHolds⟩ := build_registers hf feats res margin ix hm hres hb k t hk A B hAB s hs0 hs1
+  exact neighborhood_finds_registered hf ix (build_good hf feats res margin ix hm hres hb) k _ cP hP hHolds q hq d hd hdist
+
+/-- T5 `late_feature_complete`: a feature added to an existing index — `addFeature(track, num)` after construction,
+which is what `Network.addEdge` does on an indexed network — whose vertices are all inside the extent: the call
+returns an index `ix'` with the same extent and grid dimensions in which everything registered before is still
+registered, every point of every segment of the track lies in a cell that lists `num`, a point request in that cell
+returns `num`, and a neighbourhood query from a ground distance `d` around any point `q` within `d` of the track
+returns `num` — whatever was asked of the index before the addition. (`ix` is any index reached from a built one by
+such additions: `Good` and `Tiled` are kept.) -/
+theorem late_feature_complete {fl : α → Int} (hf : IsFloor fl) (ix : Index α) (hg : Good ix) (ht : Tiled ix)
+    (track : List (α × α)) (num : Nat) (hin : ∀ p ∈ track, getCell ix p ≠ none) :
+    ∃ ix', addFeature fl ix track num = .ok ix' ∧ Good ix' ∧ Tiled ix' ∧ Same ix ix' ∧
+      (∀ i j k, Holds ix.grid i j k → Holds ix'.grid i j k) ∧
+      ∀ A B, (A, B) ∈ Consec track → ∀ s : α, 0 ≤ s → s ≤ 1 →
+        (∃ c, getCell ix' (lerp A B s) = some c ∧ Holds ix'.grid (cellOf fl ix' c).1 (cellOf fl ix' c).2 num) ∧
+        (∃ l, requestPoint fl ix' (lerp A B s) = .ok l ∧ num ∈ l) ∧
+        (∀ (q : α × α) (d : α), getCell ix' q ≠ none → 0 ≤ d →
+          (q.1 - (lerp A B s).1) ^ 2 + (q.2 - (lerp A B s).2) ^ 2 ≤ d ^ 2 →
+          ∃ u l, groundDistanceToUnits fl ix' d = .ok u ∧ neighborhoodPoint fl ix' q u = .ok (some l) ∧ num ∈ l) := by
+  obtain ⟨ix', h, hg', ht', e, hreg⟩ := addFeature_complete hf ix hg ht track num hin
+  refine ⟨ix', h, hg', ht', e.1, e.2, ?_⟩
+  intro A B hAB s hs0 hs1
+  obtain ⟨c, hc, hH⟩ := hreg A B hAB s hs0 hs1
+  refine ⟨⟨c, hc, hH⟩, ?_, ?_⟩
+  · obtain ⟨l, hl, hkl⟩ := hH
+    refine ⟨l, ?_, hkl⟩
+    unfold requestPoint requestCell
+    simp only [getCellR_of_nz ix' hg'.nz, hc]
+    exact hl
+  · intro q d hq hd hdist
+    exact neighborhood_finds_registered hf ix' hg' num _ c hc hH q hq d hd hdist
+
+/-- a built index is `Good` and `Tiled`: the starting point of `late_feature_complete` -/
+theorem built_index_good {fl : α → Int} (hf : IsFloor fl) (feats : List (List (α × α))) (res : Option (α × α))
+    (margin : α) (ix : Index α) (hm : 0 ≤ margin) (hres : ∀ r, res = some r → 0 < r.1 ∧ 0 < r.2)
+    (hb : build fl feats res margin = .ok ix) : Good ix ∧ Tiled ix :=
+  ⟨build_good hf feats res margin ix hm hres hb, build_tiled hf feats res margin ix hm hres hb⟩
 
 /-- `grid_always_builds` (the repairs 9a44198 and the degenerate-extent one): with the default resolution or a
 positive explicit cell size, `__init__` reaches the registration loop without raising for EVERY bounding box — an
@@ -364,6 +412,19 @@ and of the segment (3,-1)-(3,3) lying on the border return (they used to raise I
 example : (match build Rat.floor [[((0 : ℚ), (0 : ℚ)), (2, 2)]] (some (1, 1)) (1/2) with
     | .ok ix => (requestPoint Rat.floor ix (3, 1), requestPoint Rat.floor ix (3, 3), requestSeg Rat.floor ix (3, -1) (3, 3))
     | .error _ => (.error .exit, .error .exit, .error .exit)) = (.ok [0], .ok [0], .ok [0]) := by
+  decide +kernel
+
+/-- a later addition (the hypotheses of `late_feature_complete` are satisfiable): the network of the two edges
+(0,0)-(100,0) and (0,100)-(100,100), cell size (10,10), margin 1/20; the neighbourhood of (50,50) for a ground distance
+15 (2 units) is empty; after `addFeature` of the edge (58,58)-(62,62) under number 2 — it crosses cells next to that of
+(50,50), not that cell itself — the same query returns it -/
+example : (match build Rat.floor [[((0 : ℚ), (0 : ℚ)), (100, 0)], [(0, 100), (100, 100)]] (some (10, 10)) (1/20) with
+    | .ok ix =>
+      (match addFeature Rat.floor ix [(58, 58), (62, 62)] 2 with
+       | .ok ix' => (groundDistanceToUnits Rat.floor ix 15, neighborhoodPoint Rat.floor ix (50, 50) 2,
+                     neighborhoodPoint Rat.floor ix' (50, 50) 2)
+       | .error _ => (.error .exit, .error .exit, .error .exit))
+    | .error _ => (.error .exit, .error .exit, .error .exit)) = (.ok 2, .ok (some []), .ok (some [2])) := by
   decide +kernel
 
 /-- regression witness of the defect repaired by ad7c5ee: cells 60 x 1, distance 10 gives 11 units (was 1) -/
